@@ -73,7 +73,8 @@ def collect(ctx):
         try:
             pos, kinds = generate(ctx, oracle)
             wf = [oracle.ask('wf ' + g) == '1' for fam, g in pos]
-            inv = [oracle.ask('inv ' + g) == '1' for fam, g in pos]
+            inv3 = [oracle.ask('inv3 ' + g) for fam, g in pos]
+            inv = [x[:1] == '1' for x in inv3]
         finally:
             oracle.close()
         lines = ['pos ' + g for fam, g in pos]
@@ -82,7 +83,7 @@ def collect(ctx):
         jl = ['judge ' + g + ' @ ' + e for (fam, g), e in zip(pos, eng)]
         jud = ctx.model_batch(jl); t3 = time.time()
         # eval metamorphic inputs: mirror and side flip of every position
-        res = {'pos': pos, 'wf': wf, 'inv': inv, 'eng': eng, 'mod': mod, 'jud': jud, 'kinds': kinds,
+        res = {'pos': pos, 'wf': wf, 'inv': inv, 'inv3': inv3, 'eng': eng, 'mod': mod, 'jud': jud, 'kinds': kinds,
                'times': {'engine_s': round(t1 - t0, 2), 'model_s': round(t2 - t1, 2), 'judge_s': round(t3 - t2, 2)}}
         # drop old cache files
         for f in os.listdir(cdir):
@@ -111,7 +112,9 @@ def sections(ans):
 
 def histograms(res):
     h = {'family': {}, 'men_per_side': {}, 'in_check': 0, 'ep_available': 0, 'rights': {}, 'side_white': 0, 'move_kinds_made': res['kinds'], 'wf': sum(res['wf']),
-         'satisfy_the_theorems_hypothesis_legal_inv_b': sum(res.get('inv', []))}
+         'satisfy_the_theorems_hypothesis_legal_inv_b': sum(res.get('inv', [])),
+         'satisfy_legal_inv_b_and_men16_b_and_prow2_b (hypotheses of C16)': sum(1 for x in res.get('inv3', []) if x == '111'),
+         'wf_positions_outside_those_hypotheses': sum(1 for x, w in zip(res.get('inv3', []), res['wf']) if w and x != '111')}
     for (fam, g), e in zip(res['pos'], res['eng']):
         f = features(g)
         fam0 = fam.split(':')[0]
